@@ -513,9 +513,21 @@ def ord5(ctx: Ctx):
                    f"the `{e.args[0][1]}` argument is split into user/host/port without the NFKC delimiter screen: a character "
                    "whose NFKC form contains '/', '?', '#', '@' or ':' moves the component boundaries after IDNA encoding",
                    where(fi, e.node), sample="ASCII, or _check_netloc() first")
-    # the screen itself
+    _screen_itself(ctx, rule)
+
+
+def ord5_set_aside(ctx: Ctx):
+    """The half of ORD5 the human_repr() round trip depends on: the screen must not reject what human_repr() shows decoded
+    (printable non-ASCII userinfo next to the authority's own '@' and ':')."""
+    ctx.rule("ORD5", floor=1, what="the NFKC screen sets the authority's own '@' and ':' aside before normalising")
+    _screen_itself(ctx, "ORD5", only_set_aside=True)
+
+
+def _screen_itself(ctx: Ctx, rule, only_set_aside=False):
+    model = ctx.model
     fi = model.func("_parse._check_netloc")
     r = analyze(model, fi)
+    ctx.functions.add(fi.qual)
     ctx.instance(rule)
     screened = set()
     for lid, node in r.loops.items():
@@ -560,6 +572,8 @@ def ord5(ctx: Ctx):
            f"the screen removes {''.join(sorted(removed))!r} before NFKC-normalising; '@' and ':' occur in every authority with userinfo / "
            "a port and are in the screened set, so leaving them in rejects valid non-ASCII authorities", where(fi, fi.node),
            sample="".join(sorted(removed)))
+    if only_set_aside:
+        return
     raises = all(v[0] == "call" and v[1] == ("builtin", "ValueError") for _s, v, _n in r.raises) and bool(r.raises)
     nfkc = any(e.func[-1] == "normalize" and e.args and e.args[0] == ("const", "NFKC") for e in r.by_kind("call"))
     ctx.ob(rule, fi.qual, "screened characters", screened >= set(NFKC_SCREEN) and raises and nfkc,
